@@ -104,17 +104,29 @@ func runC17(c *Ctx) {
 	other := zap.New(zapcore.NewCore(zapcore.NewJSONEncoder(encCfg()), zapcore.Lock(otherSink), zapcore.DebugLevel))
 	otherN := 0
 	lvl := zap.NewAtomicLevelAt(zapcore.InfoLevel)
-	core, logs := observer.New(lvl)
+	// one run in five: a writer at a verbosity level below Debug (as logr-style
+	// adapters use) over a core whose enabler is a plain function, not a level
+	verbose := g.Chance(5)
+	floor := zapcore.Level(-2)
+	var enab zapcore.LevelEnabler = lvl
+	if verbose {
+		enab = zap.LevelEnablerFunc(func(l zapcore.Level) bool { return l >= floor })
+		c.R.Probe("writer at a level below Debug over a function enabler")
+	}
+	core, logs := observer.New(enab)
 	var wcore zapcore.Core = core
 	if c.F.Chance(4) {
 		// the writer's logger also feeds a destination that fails every write
 		// (registered in front of the judged one): the lines are logged all the
 		// same, Write still reports every byte as consumed
-		wcore = zapcore.NewTee(c17failCore{lvl}, core)
+		wcore = zapcore.NewTee(c17failCore{enab}, core)
 		c.Fault("failing-sibling-core")
 	}
 	shared := zap.New(wcore, zap.ErrorOutput(zapcore.AddSync(io.Discard)))
 	wr := &zapio.Writer{Log: shared, Level: pick(g, zapcore.InfoLevel, zapcore.WarnLevel)}
+	if verbose {
+		wr.Level = zapcore.Level(-2)
+	}
 	// one run in four: a second writer on the same logger (a child's stderr
 	// next to its stdout), fed by its own task at a level that stays enabled
 	var wrB *zapio.Writer
@@ -210,8 +222,10 @@ func runC17(c *Ctx) {
 				toggles++
 				if enabled {
 					lvl.SetLevel(zapcore.InfoLevel)
+					floor = zapcore.Level(-2)
 				} else {
 					lvl.SetLevel(zapcore.ErrorLevel)
+					floor = zapcore.ErrorLevel
 				}
 				ed = append(ed, fmt.Sprintf("level-enabled=%v", enabled))
 			}
@@ -309,7 +323,7 @@ func runC17(c *Ctx) {
 }
 
 // c17failCore enables what the judged core enables and fails every write.
-type c17failCore struct{ lvl zap.AtomicLevel }
+type c17failCore struct{ lvl zapcore.LevelEnabler }
 
 func (k c17failCore) Enabled(l zapcore.Level) bool      { return k.lvl.Enabled(l) }
 func (k c17failCore) With([]zapcore.Field) zapcore.Core { return k }
